@@ -119,6 +119,12 @@ class LazySelf(dict):
     a new counter) starts the way its constructor would start it, instead of making the function unreadable"""
 
 
+class CtorSelf(LazySelf):
+    """a LazySelf whose unset fields are first asked of `init(name)` - the field's initialiser in the constructor, evaluated on
+    the scenario's arguments (a flag pre-computed from the query in `new` has the value `new` gives it); None = no initialiser"""
+    init = None
+
+
 def default_of_type(ty, what="?"):
     t = str(ty or "").lstrip("&").replace("mut ", "").strip()
     for wrap in ("alloc::rc::Rc<", "alloc::sync::Arc<", "core::cell::RefCell<", "core::cell::Cell<", "alloc::boxed::Box<"):
@@ -440,6 +446,11 @@ class Interp:
             if isinstance(base, dict):
                 if n["name"] in base:
                     return base[n["name"]]
+                if isinstance(base, CtorSelf) and base.init is not None:
+                    v_ = base.init(n["name"])
+                    if v_ is not None:
+                        base[n["name"]] = v_[0]
+                        return v_[0]
                 if isinstance(base, LazySelf):
                     base[n["name"]] = default_of_type(n.get("ty"), render(n))
                     return base[n["name"]]
@@ -1329,6 +1340,11 @@ class Interp:
                 return len(items)
             if m in ("min", "max") and all(isinstance(x, (int, float)) and not isinstance(x, bool) for x in items):
                 return some(min(items) if m == "min" else max(items)) if items else NONE
+            if m in ("sum", "product") and all(isinstance(x, (int, float)) and not isinstance(x, bool) for x in items):
+                acc = (0.0 if "f64" in str(n.get("ty", "")) or "f32" in str(n.get("ty", "")) else 0) if m == "sum" else 1
+                for x in items:
+                    acc = acc + x if m == "sum" else acc * x
+                return acc
             if m == "flatten":
                 out = []
                 for x in items:
